@@ -59,6 +59,7 @@ func (mux *TypeMux) Subscribe(types ...interface{}) *TypeMuxSubscription {
 		// call will short circuit.
 		sub.closed = true
 		close(sub.postC)
+		verifMuxPoint(mux, "sub_stopped", sub, nil)
 	} else {
 		if mux.subm == nil {
 			mux.subm = make(map[reflect.Type][]*TypeMuxSubscription)
@@ -73,6 +74,7 @@ func (mux *TypeMux) Subscribe(types ...interface{}) *TypeMuxSubscription {
 			copy(subs, oldsubs)
 			subs[len(oldsubs)] = sub
 			mux.subm[rtyp] = subs
+			verifMuxPoint(mux, "sub_add", sub, rtyp)
 		}
 	}
 	return sub
@@ -88,10 +90,12 @@ func (mux *TypeMux) Post(ev interface{}) error {
 	rtyp := reflect.TypeOf(ev)
 	mux.mutex.RLock()
 	if mux.stopped {
+		verifMuxPoint(mux, "post_stopped", nil, rtyp)
 		mux.mutex.RUnlock()
 		return ErrMuxClosed
 	}
 	subs := mux.subm[rtyp]
+	verifMuxPoint(mux, "post_snap", nil, rtyp)
 	mux.mutex.RUnlock()
 	for _, sub := range subs {
 		sub.deliver(event)
@@ -104,6 +108,7 @@ func (mux *TypeMux) Post(ev interface{}) error {
 // Stop blocks until all current deliveries have finished.
 func (mux *TypeMux) Stop() {
 	mux.mutex.Lock()
+	verifMuxPoint(mux, "stop_begin", nil, nil)
 	for _, subs := range mux.subm {
 		for _, sub := range subs {
 			sub.closewait()
@@ -111,6 +116,7 @@ func (mux *TypeMux) Stop() {
 	}
 	mux.subm = nil
 	mux.stopped = true
+	verifMuxPoint(mux, "stop_end", nil, nil)
 	mux.mutex.Unlock()
 }
 
@@ -118,6 +124,7 @@ func (mux *TypeMux) del(s *TypeMuxSubscription) {
 	mux.mutex.Lock()
 	for typ, subs := range mux.subm {
 		if pos := find(subs, s); pos >= 0 {
+			verifMuxPoint(mux, "del", s, typ)
 			if len(subs) == 1 {
 				delete(mux.subm, typ)
 			} else {
@@ -186,10 +193,12 @@ func (s *TypeMuxSubscription) closewait() {
 	if s.closed {
 		return
 	}
+	verifMuxPoint(s.mux, "closing", s, nil)
 	close(s.closing)
 	s.closed = true
 
 	s.postMu.Lock()
+	verifMuxPoint(s.mux, "postc_close", s, nil)
 	close(s.postC)
 	s.postC = nil
 	s.postMu.Unlock()
@@ -198,6 +207,7 @@ func (s *TypeMuxSubscription) closewait() {
 func (s *TypeMuxSubscription) deliver(event *TypeMuxEvent) {
 	// Short circuit delivery if stale event
 	if s.created.After(event.Time) {
+		verifMuxPoint(s.mux, "deliver_stale", s, nil)
 		return
 	}
 	// Otherwise deliver the event
@@ -206,6 +216,8 @@ func (s *TypeMuxSubscription) deliver(event *TypeMuxEvent) {
 
 	select {
 	case s.postC <- event:
+		verifMuxPoint(s.mux, "deliver_sent", s, nil)
 	case <-s.closing:
+		verifMuxPoint(s.mux, "deliver_closed", s, nil)
 	}
 }
